@@ -3,6 +3,7 @@ package checks
 import (
 	"context"
 	"fmt"
+	"strings"
 	"sync"
 	"time"
 
@@ -40,6 +41,9 @@ func c12Pairs() []pairScenario {
 		// one of the two queries hits a storage failure: the other one must not notice, and the
 		// failing one must fail in every interleaving
 		{"P8:a+b with a failing select|a", `a + on (l) group_left b`, `a{l="1"}`, r2, r2, 2, 1, 2, []mstore.Fault{{Kind: "select", Sel: `{__name__="a"}@-290000,40000`, Series: -1, Nth: 0, Action: "error"}}},
+		// delay bounding: one deviation stalls a thread across many hand-offs of the others
+		{"P10:sum by (l)(sum by (l,m)(a)) 40 steps|sum by (l)(a)/delays", `sum by (l) (sum by (l, m) (a))`, `sum by (l) (a)`, core.Range(10000, 30000, 40), r2, 2, 1, 1, nil},
+		{"P11:a 12 steps|sum by (l)(a) 12 steps/delays", `a`, `sum by (l) (a)`, r12, r12, 2, 1, 2, nil},
 		{"P9:sum by (l)(a) with a failing iterator|b", `sum by (l) (a)`, `b`, r2, r2, 2, 1, 2, []mstore.Fault{{Kind: "seek", Series: 1, Nth: 0, Action: "error"}}},
 	}
 }
@@ -53,7 +57,7 @@ func init() {
 			c2 := core.Case{Q: ps.q2, Data: data, W: ps.w2, O: o}
 			solo1 := explore.RunOnce(&explore.Scenario{Name: "solo1", Case: c1}, explore.Sched{EventStep: -1})
 			solo2 := explore.RunOnce(&explore.Scenario{Name: "solo2", Case: c2}, explore.Sched{EventStep: -1})
-			s := schedScenario{Scenario: explore.Scenario{Name: ps.name, Case: c1, Two: &c2}, DQuick: ps.dq, DThorough: ps.dt}
+			s := schedScenario{Scenario: explore.Scenario{Name: ps.name, Case: c1, Two: &c2, Delay: strings.HasSuffix(ps.name, "/delays")}, DQuick: ps.dq, DThorough: ps.dt}
 			runSched(c, &s, "C12", nil, func(root *explore.Obs) func(o *explore.Obs, sd explore.Sched) (string, string) {
 				return func(o *explore.Obs, sd explore.Sched) (string, string) {
 					if sym, det := baseOracle(o); sym != "" {
@@ -113,6 +117,7 @@ func init() {
 				mk(`topk(1, a)`, core.Instant(45000), false, 0), mk(`count_values("v", a)`, w, true, 0), mk(`-a + scalar(sum(b))`, w, false, 0),
 				mk(`sum by (l) (a)`, w, false, 2), mk(`histogram_quantile(0.5, a)`, core.Instant(45000), false, 0),
 				mk(`a{l="0"} + a`, w, false, 0), mk(`sum(a{m="1"}) / sum(a)`, w, false, 0),
+				mk(`sum by (l) (sum by (l, m) (a))`, core.Range(0, 15000, 45), false, 0), mk(`max(-sum by (l) (rate(a[1m])))`, core.Range(0, 15000, 45), false, 0),
 				mk(`histogram_quantile(0.5, h_bucket)`, w, false, 0), mk(`histogram_quantile(0.9, rate(h_bucket[1m]))`, w, false, 0))
 		}
 		// every plan shape of the fault checks, once
